@@ -204,6 +204,27 @@ ADDED5 = {
 for k, v in ADDED5.items():
     CLAIMS[k]["text"] += v
 
+ADDED6 = {
+ "C01": " Wave 6: node kinds are the Nt-prefixed constants (other NodeType-typed constants are values).",
+ "C02": " Wave 6: R-TEXTEND (Runtextend is only ever the length of the installed text).",
+ "C03": " Wave 6: R-LMSTART (the landmark-chain candidate is never right of a possible match start: leftmost start among the alternatives, rewind over every alternative's leading whitespace), R-GAPKIND (only zero-width kinds between the leading loop and the first landmark), R-SEARCHSTEP (plain searches try every start position).",
+ "C04": " Wave 6: R-ACCCAP compares the capped count with the loop's maximum, R-BUFALIAS (no buffer over another buffer's bytes), R-DISTADD (a running offset only grows by addition), R-GAPKIND.",
+ "C05": " Wave 6: R-ANCHORSRC (anchor nodes come from the parser only), R-EOLNL ($ / \\Z successors keep the newline out of the loop), R-LOOPONCE (direct descent into a loop body only for loops that run at most once).",
+ "C07": " Wave 6: R-ANCHORSRC.",
+ "C09": " Wave 6: R-ERRPROP (an error from the matcher is never dropped by a fold), R-SPLITSTRIDE (one entry per group per match), R-REWINDFIRST (a scanner that can give up saves its position before consuming).",
+ "C10": " Wave 6: R-ERRPROP, R-TEXTIDX (a text index that a loop advances is tested against an upper bound before use).",
+ "C11": " Wave 6: R-EXITFRESH (the clock goroutine stops on a reading of clockEnd taken in the same critical section).",
+ "C13": " Wave 6: R-ERRPROP.",
+ "C14": " Wave 6: R-ERRPROP, R-EXITFRESH.",
+ "C15": " Wave 6: R-TEXTEND.",
+ "C16": " Wave 6: R-ESCLITERAL (an escaped character in a class is finished by its arm or marked translated).",
+ "C17": " Wave 6: R-PRESCANSIB (the pre-scan consumes the same pattern text as the main parse on both sides of every scanOnly branch), R-OPTWRITE, R-NUMCHECK (a by-number name lookup answers only for bounded numbers).",
+ "C18": " Wave 6: R-PRESCANSIB, R-OPTWRITE (parser.options changes only through the option stack, the inline-option scanner and the look-around direction bit), R-INLINEMASK (no inline-settable option is cleared from an option word outside the parser).",
+ "C19": " Wave 6: R-CODEC also requires every error return of the reader's default arm to stand under a word-character test.",
+}
+for k, v in ADDED6.items():
+    CLAIMS[k]["text"] += v
+
 CLAIMS["C06"] = dict(
    technique="static analysis: method-set / signature comparison on go/types against the standard library's *regexp.Regexp, SSA unit taint (rune positions vs byte offsets) over package compat, guard dominance on go/cfg for groups without captures, delegation check of the find-all limit, sibling agreement of the parser's dialect predicates",
    text="Decides structural necessary conditions of the adapter returning what Go's regexp returns: every Match*/Find* method of *regexp.Regexp exists on the adapter with an identical signature and is covered by the compile-time witnesses (R-SURFACE); no value computed from Capture.RuneIndex / RuneLength reaches an []int the adapter fills or a bound of a byte slice except through an offset table (R-BYTEUNIT), byte offsets are never compared with rune indexes (R-UNITCMP) and the lazily built offset table is created at the first rune that is not one byte wide (R-LAZYTABLE); a group without captures is reported as -1 pairs / nil / empty and never sliced (R-UNSETPAIR); n == 0 gives nil in every find-all method (R-NZERO); the first empty match is kept and the empty-match-next-to-previous rule is direction-aware (R-PREVINIT, R-DIRFOLD); the RE2 dialect switches of \\w \\d \\s, their forms inside a class and \\b / \\B are taken under the same option predicates (R-DIALECTSIB). It does NOT decide the equality itself: what is matched (leftmost-first vs backtracking semantics, class contents, anchors) is outside this technique.",
